@@ -371,6 +371,12 @@ def gen_rules(rng):
     for r in rules:
         r["strict"] = rng.choice([None, None, True, False])
         r["merge"] = rng.choice([None, None, True, False])
+        if rng.random() < 0.12:
+            # literal text that the routing code itself uses as a separator internally (domain|path)
+            r["segs"] = list(r["segs"])
+            r["segs"].insert(rng.randint(0, len(r["segs"])), ("lit", rng.choice(["|", "|", "a|b", "|x"])))
+            if not r["segs"][1:] and not r["tail"]:
+                r["branch"] = rng.random() < 0.4
     extra = []
     for r in list(rules):
         # defaults pair: same endpoint, shorter rule providing a default for the last int/string variable
